@@ -27,6 +27,15 @@ class C18(CfProp):
         nmax = 4 if tier == "quick" else 5
         while len(cases) < n:
             r0 = rng.random()
+            r1 = rng.random()
+            if r1 < 0.05:
+                g, ev = GEV.prefix_name_case(rng)
+                cases.append({"g": g, "event": ev})
+                continue
+            if r1 < 0.12:
+                g, ev = GEV.mediator_case(rng)
+                cases.append({"g": g, "event": ev})
+                continue
             if r0 < 0.1:
                 g, ev = GEV.three_world_case(rng)
                 cases.append({"g": g, "event": ev})
